@@ -41,6 +41,7 @@ class Gen:
         self.sub = True
         self.imp_n = 0
         self.prev = prev or []            # [(module full name, {class name: exc})] of the modules generated before
+        self.pending: List[str] = []      # names of the classes whose body is being generated (not usable as bases inside)
 
     # ---------------------------------------------------------------- helpers
     def out(self) -> bool:
@@ -265,7 +266,7 @@ class Gen:
             exc = False
             q = r.random()
             local = [n for n, v in env.items() if v[0] == 'class' and n != name]
-            cands: List[Tuple[str, bool]] = [(n, env[n][1]) for n in local]
+            cands: List[Tuple[str, bool]] = [(n, env[n][1]) for n in local if n not in self.pending]
             top = sc
             hidden: set = set()
             while top.parent is not None:                       # names Python would see in the module globals from a nested class body
@@ -274,7 +275,7 @@ class Gen:
                     hidden |= set(top.env) | top.selfnames
             if top is not sc:
                 cands += [(n, v[1]) for n, v in top.env.items() if v[0] == 'class' and n not in env and n not in hidden
-                          and n not in sc.selfnames and n != name and n not in getattr(self, 'pending', [])]
+                          and n not in sc.selfnames and n != name and n not in self.pending]
             for src in (env, top.env) if top is not sc else (env,):
                 for n, v in src.items():
                     if v[0] == 'auxclass' and (src is env or (n not in env and n not in hidden)):
@@ -301,7 +302,9 @@ class Gen:
             body = []
             if r.random() < 0.5:
                 body.append(self.expr_str())
+            self.pending.append(name)
             body += self.stmts(inner, depth + 1, r.randint(0, 4))
+            self.pending.pop()
             if r.random() < 0.45:
                 nm2 = r.choice(AN + ['z0', 'z1'])
                 if not (nm2 in inner.env and inner.env[nm2][0] in ('fun', 'class')):
